@@ -61,7 +61,7 @@ def tier_params(tier):
     return {
         "sizes": [100, 120, 150, 200, 280, 400] if t else [100, 150, 400],
         "sds": [0.01, 0.02, 0.05, 0.08, 0.1] if t else [0.01, 0.05, 0.1],
-        "multi_sds": [0.01, 0.05, 0.1],
+        "multi_sds": [0.01, 0.05, 0.1] if t else [0.01, 0.1],
         "arr_k": 3 if t else 1,  # affine multipliers (x 3 offsets, + block-reversed + interleaved each)
         "arr_km": 9 if t else 3,  # modular-inverse arrangements
         # (weight pattern, layout): the full product, or every pair that differs from (one, uniform) in <= 1 dimension
